@@ -41,12 +41,35 @@ def once_per_use(ctx, facts, roles, p, cfg, name, e, K2="K2", K3="K3"):
     eval_key = roles.parsed_evaluate
     interp = [s for s in u.calls(lambda c: c.get("key") in sink_keys or c.get("key") in roles.evaluators)]
     ctx.need(interp, "%s never calls the interpreter" % name)
+    # where the iteration over the operand list starts in the root function: calls that receive a per-element
+    # closure, and headers of loops containing per-element code
+    iter_blocks = set()
+    for s in interp:
+        k = u.per_element(s)
+        if k == "closure":
+            cur = s.body
+            while cur.kind == "closure" and cur.creator() and cur.creator()[0].key != root.key:
+                cur = cur.creator()[0]
+            for bi, t in root.calls():
+                for a in t["args"]:
+                    x = strip_refs(root.trace(a))
+                    if x[0] == "agg" and x[1].get("closure") == cur.key:
+                        iter_blocks.add(bi)
+        elif k == "loop" and s.body.key == root.key:
+            for (h, blocks, srcs) in PN.loops_of(root):
+                if s.bi in blocks:
+                    iter_blocks.add(h)
     # list parser / parse through adaptor = pre-pass
     for s in interp:
         c = callee_of(s.term)
         key = c["key"]
         is_list = key in {lb.key for lb in roles.list_parsers}
         ctxk = u.per_element(s)
+        if key == eval_key:
+            s2d = p.s2.get((s.body.key, s.bi))
+            dtags = set(s2d.tags) if s2d else set()
+            ctx.check(dtags == {"DATA"}, K2 + ".against-the-data", "%s: operand evaluated against the operator's own data (%s, %s)" % (name, s.where(), cfg),
+                      "%s evaluates an operand against a value with provenance %s instead of the data it was given" % (name, sorted(dtags)), where=s.where(), fn=s.body.key, nontrivial=True)
         tags = set()
         if key in sink_keys:
             sk = p.s1.get((s.body.key, s.bi, key, roles.sinks[key][0]))
@@ -66,6 +89,10 @@ def once_per_use(ctx, facts, roles, p, cfg, name, e, K2="K2", K3="K3"):
             # constant operand index outside the loop: only `if`'s prologue
             ctx.check(name == "if", K2 + ".prologue", "%s: %s at %s (%s)" % (name, c["path"].rsplit("::", 1)[-1], s.where(), cfg),
                       "%s evaluates a fixed operand outside the per-element code" % name, where=s.where(), fn=s.body.key)
+            if s.body.key == root.key:
+                again = sorted(iter_blocks & root.reachable(s.bi))
+                ctx.check(not again, K2 + ".prologue-returns", "%s: after the prologue's %s the iteration over the operands is not entered (%s, %s)" % (name, c["path"].rsplit("::", 1)[-1], s.where(), cfg),
+                          "%s handles a fixed operand before the iteration and then still enters the iteration: that operand is parsed/evaluated twice" % name, where=s.where(), fn=s.body.key, nontrivial=True)
     # parser fn items handed to adaptors (`.map(Parsed::from_value)`)
     for b in u.bodies:
         for bi, t in b.calls():
